@@ -123,8 +123,10 @@ def judgeSetOut (g : Graph) (c : SetCmd) (pre post : Ob) : Option String :=
       let lost := (match x0, x1 with | some a, some b => a.out.filter (fun o => !b.out.contains o) | _, _ => [])
       -- T is not in the pool: is there a database row of exactly T's flows to record the outputs in?
       let exactRow := (post.rowsOf k).any fun r => subset r.fl pf && subset pf r.fl
+      -- (the recorded finding is about rows of OVERLAPPING flows; a row of the `none` flow overlaps no flow: outputs
+      -- completed in no flow do not count in a real flow)
       if !lost.isEmpty then some s!"outputs-not-completed: {showKey k} lost outputs {lost}"
-      else if x1.isNone && !exactRow && !missing.isEmpty then
+      else if x1.isNone && !exactRow && !missing.isEmpty && ((post.rowsOf k).any fun r => meets r.fl pf) then
         some s!"set-db-row-missing: {showKey k} after set {c.outs} in flows {pf}: {missing} not recorded, the database has rows of this instance for overlapping flows only ({(post.rowsOf k).map (·.fl)})"
       else if missing == ["submit-failed"] then
         some s!"set-submit-failed-ignored: cylc set --out=submit-failed on {showKey k} did not complete the output"
